@@ -242,6 +242,7 @@ def trigger(rep, prog):
         # the function's own logic interpreted for each way the two volumes can compare (below / equal / above / unordered = NaN)
         from .. import finite
         table = {}
+        wrong = set()
         for order in ("lt", "eq", "gt", "un"):
             def atom(e, it, order=order):
                 if e.get("k") == "BinaryOperator" and e.get("op") in ("<", "<=", ">", ">=", "==", "!="):
@@ -249,11 +250,17 @@ def trigger(rep, prog):
                     if {l, r} == {"volume_", "division_volume_"}:
                         o = order if l == "volume_" else {"lt": "gt", "gt": "lt"}.get(order, order)
                         return {"<": o == "lt", "<=": o in ("lt", "eq"), ">": o == "gt", ">=": o in ("gt", "eq"), "==": o == "eq", "!=": o != "eq"}[e["op"]]
+                    if "division_volume_" in (l, r) and re.match(r"^\w+_$", l if r == "division_volume_" else r):
+                        wrong.add(l if r == "division_volume_" else r)
                 return NotImplemented
             try:
                 table[order] = finite.Interp(atom).call(f)
             except finite.Unknown as u:
                 raise AnalysisBroken("epithelial_cell::is_ready_to_divide: %s cannot be interpreted" % u)
+        if wrong:
+            rep.violation("C04.division-trigger", prog, f, rets[0] if rets else None, "division trigger compares %s with division_volume_" % ", ".join(sorted(wrong)),
+                          "epithelial_cell::is_ready_to_divide compares %s (not the cell's current volume_) with division_volume_: a cell is eligible exactly when its volume has reached its division volume; with the target volume the cell divides while its real volume still lags behind (pressure cap, confinement)" % ", ".join(sorted(wrong)))
+            continue
         if any(v is None for v in table.values()):
             raise AnalysisBroken("epithelial_cell::is_ready_to_divide: the returned value is not a function of how volume_ compares with division_volume_ that this checker can interpret (%s)" % table)
         if table == {"lt": False, "eq": True, "gt": True, "un": False}:
